@@ -168,6 +168,38 @@ def do_detect(sid, props):
     return 0
 
 
+def do_detect_copy(sid, props):
+    """regression without touching /repo: the seed is applied to a scratch copy and ./check runs with VERIF_REPO pointing to
+    it (own target / evidence / replay directories under /tmp/tzrs-seedreg); records the verdict under detected_by_copy"""
+    d = os.path.join(SEEDED, sid)
+    meta = json.load(open(os.path.join(d, "meta.json")))
+    if not props:
+        props = [meta["property"]]
+    work = "/tmp/tzrs-seedreg"
+    copy = os.path.join(work, "repo")
+    shutil.rmtree(copy, ignore_errors=True)
+    os.makedirs(copy)
+    for item in ("src", "Cargo.toml", "Cargo.lock"):
+        src = os.path.join("/repo", item)
+        (shutil.copytree if os.path.isdir(src) else shutil.copy)(src, os.path.join(copy, item))
+    sh("git init -q .", cwd=copy)
+    rc, out = sh(f"git apply {os.path.join(d, 'patch.diff')}", cwd=copy)
+    if rc != 0:
+        print(out)
+        return 2
+    env = dict(ENV, VERIF_REPO=copy, VERIF_TARGET_DIR=os.path.join(work, "target"), VERIF_EVIDENCE_DIR=os.path.join(work, "evidence"), VERIF_REPLAY_DIR=os.path.join(work, "replay"))
+    for x in ("evidence", "replay"):
+        os.makedirs(os.path.join(work, x), exist_ok=True)
+    for prop in props:
+        t0 = time.time()
+        p = subprocess.run(f"./check {prop} quick", shell=True, cwd=VERIF, env=env, stdout=subprocess.PIPE, stderr=subprocess.STDOUT, text=True, timeout=3600)
+        viol = [l for l in p.stdout.splitlines() if l.startswith("VIOLATION")]
+        verdict = "detected" if (p.returncode == 1 and viol) else ("missed" if p.returncode == 0 else f"machinery rc={p.returncode}")
+        meta.setdefault("detected_by_copy", {})[prop] = {"verdict": verdict, "wall_s": round(time.time() - t0, 1)}
+        print(f"{sid} vs {prop} (copy): {verdict} ({len(viol)} VIOLATION lines, {time.time()-t0:.0f}s)", flush=True)
+    return 0
+
+
 def table_text():
     rows = []
     for sid in sorted(os.listdir(SEEDED)):
@@ -197,6 +229,8 @@ def do_design():
     print("DESIGN.md seed table updated")
 
 
+if __name__ == "__main__" and len(sys.argv) >= 3 and sys.argv[1] == "detect-copy":
+    sys.exit(do_detect_copy(sys.argv[2], sys.argv[3:]))
 if __name__ == "__main__":
     a = sys.argv
     if len(a) >= 5 and a[1] == "import":
